@@ -44,13 +44,66 @@ def plan(tier, seed):
             for recv in recvs:
                 specs.append({'name': name, 'kind': kind, 'recv': recv})
     specs.append({'name': 'kill-threads', 'kind': 'kill'})
+    specs.append({'name': 'stale-user', 'kind': 'stale'})
     return specs
+
+
+STALE_FAULTS = ['pABORT', 'pUNK', 'pRELRQ', 'close', 'reset', 'pINV']
+
+
+def stale_cases(res):
+    """The association ends (peer abort / garbage / disconnect / release) just
+    before a local step: the local user, who cannot know yet, still issues its
+    next primitive.  Whatever the provider does with that primitive, the ending
+    must still complete: no dead loop, idle + closed once the peer has closed
+    and ARTIM has passed."""
+    from . import fixtures as F
+    for name, (role, steps) in convo.corpus().items():
+        for k, step in enumerate(steps):
+            if step[0] != 'user':
+                continue
+            for fault in STALE_FAULTS:
+                for twice in (False, True):
+                    case = {'kind': 'stale', 'scenario': name, 'point': [k, 0], 'fault': fault,
+                            'twice': twice, 'recv': 65536}
+                    part = list(steps[:k])
+                    part.append(('peer', [F.PEER[fault]]) if fault in F.PEER else (fault,))
+                    part.append(step)
+                    if twice:
+                        part.append(step)
+                    tail = [('close',), ('time', 11.0), ('time', 11.0)]
+                    sim = simnet.Sim(role, convo.build_script(role, part + tail))
+                    sim.run()
+                    res.evaluations += 1
+                    res.distinct.add('stale|%s|%d|%s|%s' % (name, k, fault, twice))
+                    res.count('oracle.stale-user-primitive')
+                    where = '%s: %s just before local step %d (%s%s)' % (
+                        name, fault, k, step[1], ' x2' if twice else '')
+                    if sim.outcome != 'end-of-script':
+                        key = {'raised': 'loop-died', 'blocked': 'blocking-recv',
+                               'budget': 'spinning'}.get(sim.outcome, 'run-' + str(sim.outcome))
+                        res.violation('%s:stale-user-primitive' % key, 'C13.stale',
+                                      '%s: run() %s: %s (state Sta%d, closed=%s)' % (
+                                          where, sim.outcome, sim.error, sim.state() + 1,
+                                          sim.all_closed()), case)
+                        continue
+                    if sim.state() != 0 or not sim.all_closed():
+                        res.violation('not-idle-closed:stale-user-primitive', 'C13.stale',
+                                      '%s: final state Sta%d, closed=%r' % (
+                                          where, sim.state() + 1, sim.all_closed()), case)
+                    for described in sim.wire:
+                        if described[0] == 'MALFORMED':
+                            res.violation('malformed-output', 'C13.M6', '%s: %r' % (where, described),
+                                          case)
 
 
 def run_shard(spec, tier, seed):
     res = Result()
     if spec['kind'] == 'kill':
         return kill_threads(res, tier, seed)
+    if spec['kind'] == 'stale':
+        stale_cases(res)
+        return res
     role, steps = convo.corpus()[spec['name']]
     if spec['kind'] in ('close', 'reset'):
         for point in fault_points(steps):
@@ -73,6 +126,9 @@ def replay(case):
     res = Result()
     if case.get('kind') == 'kill':
         return kill_one(res, case)
+    if case.get('kind') == 'stale':
+        stale_cases(res)
+        return res
     run_case(res, case, verbose=True)
     return res
 
